@@ -130,7 +130,7 @@ func (s *Solver) Ref(t *Term) string {
 			s.defined[t.key] = t.name
 		}
 		return t.name
-	case "rawbool":
+	case "rawbool", "rawre":
 		return t.s
 	}
 	if n, ok := s.defined[t.key]; ok {
